@@ -8,7 +8,7 @@ CONSTANTS
   CheckObj = TRUE
   AtomicMode = "txn"
   LocalCheckObj = TRUE
-  LocalAtomicMode = "precheck"
+  LocalAtomicMode = "none"
   KeepHist = FALSE
   Emit = FALSE
 INVARIANT StatusExact
